@@ -130,8 +130,25 @@ def scenario(rng, rich):
     return ops
 
 
+def link_scenario(rng, rich):
+    """clone of a job that holds a symbolic link with an absolute target inside its own directory: the
+    clone must be independent (writing through the clone's entry must not reach the source job)"""
+    sp = W.gen_sp(rng, rich)
+    ops = [["open", "h1", 0, sp], ["init", "h1"], ["put", "h1", "run_3.dat", "A"],
+           ["putlink", "h1", "latest.dat", "run_3.dat", "A"]]
+    if rng.random() < 0.5:
+        ops.append(["dset", "h1", "k", 1])
+    ops.append(["clone", "h1", 1, "hc"])
+    ops.append(["put", "hc", "latest.dat", "ZZ"])
+    if rng.random() < 0.5:
+        ops.append(["remove", "h1"])
+    return ops
+
+
 def generate(tier, rng):
     n = 4000 if tier == "quick" else 40000
+    for i in range(20 if tier == "quick" else 200):
+        yield {"ops": link_scenario(rng, rich=(i % 3 == 0)), "nproj": 2, "views": True}
     for i in range(n):
         yield {"ops": scenario(rng, rich=(i % 3 == 0)), "nproj": 2, "views": i % 4 != 0}
 
